@@ -208,7 +208,7 @@ func (fr *Frame) callFunc(ins ssa.Instruction, fn *ssa.Function, args []*Val, bi
 	vc := fr.vc
 	name := shortFuncName(fn.String())
 	if c := vc.w.contracts[name]; c != nil && binds == nil && (vc.specDepth == 0 || (!c.Inline && onlyGhostAssigns(c))) {
-		if !c.Inline && (vc.w.unroll == 0 || c.Trusted || fn.Blocks == nil) {
+		if !c.Inline && !vc.w.forceInline[name] && (vc.w.unroll == 0 || c.Trusted || fn.Blocks == nil) {
 			vc.used[name] = true
 			return fr.applyContract(ins, fn, c, args)
 		}
@@ -216,6 +216,9 @@ func (fr *Frame) callFunc(ins ssa.Instruction, fn *ssa.Function, args []*Val, bi
 	}
 	if m := externModels[fn.String()]; m != nil {
 		vc.trusted[fn.String()] = true
+		if vc.taint && vc.specDepth == 0 {
+			fr.checkSinks(fn.String(), args)
+		}
 		return m(fr, ins, fn, args)
 	}
 	if fn.Blocks == nil {
@@ -577,7 +580,80 @@ func (fr *Frame) havocAssigns(assigns []Clause, scope map[string]*Val, old *Stat
 				return imp(not(and(le(lo2, idx), lt(idx, hi2))), eq(sel(nw, idx), sel(oldArr, idx))), nil
 			})
 			fr.st.heap[l.Key] = nw
+			if vc.taint && l.Key == "H_uint8" {
+				// bytes written by a callee under contract may derive from secrets
+				oldT := vc.arr(fr.st, taintLeaf)
+				nt := vc.fresh("G_taint", "(Array Int Bool)")
+				vc.addAxiomArr("G_taint", nt, oldT, fmt.Sprintf("(forall ((a Int)) (! (= (select %s a) (or (and (<= %s a) (< a %s)) (select %s a))) :pattern ((select %s a))))", nt, lo2, hi2, oldT, nt),
+					func(idx string) (string, []string) {
+						return eq(sel(nt, idx), or(and(le(lo2, idx), lt(idx, hi2)), sel(oldT, idx))), nil
+					})
+				fr.st.heap["G_taint"] = nt
+			}
 		}
+	}
+}
+
+// checkSinks: no byte handed to an external function (formatting, writers) is secret.
+func (fr *Frame) checkSinks(callee string, args []*Val) {
+	vc := fr.vc
+	var visit func(v *Val, depth int)
+	check := func(base, ln string) {
+		k := vc.fresh("sk_sink", "Int")
+		for _, h := range vc.hyps {
+			h(k)
+		}
+		a := add(base, k)
+		vc.nsecret++
+		vc.obligeNamed(fr, fmt.Sprintf("%s/secret-escape/%d", shortFuncName(fr.fn.String()), vc.nsecret), "secret-escape",
+			imp(and(le("0", k), lt(k, ln)), not(vc.read(fr.st, taintLeaf, a))), nil, "bytes of the credentials are passed to "+callee)
+	}
+	visit = func(v *Val, depth int) {
+		if v == nil || v.T == nil || depth > 3 {
+			return
+		}
+		switch {
+		case isStringT(v.T):
+			check(v.L[0], v.L[1])
+		case isSliceT(v.T):
+			et := elemOf(v.T)
+			if typeStr(et) == "uint8" {
+				check(v.L[0], v.L[1])
+				return
+			}
+			// a slice of interfaces (varargs) with a literal length
+			if n, ok := parseIntLit(v.L[1]); ok && n.IsInt64() && n.Int64() <= 16 {
+				for i := int64(0); i < n.Int64(); i++ {
+					el := fr.load(add(v.L[0], intLit(i*int64(slots(et)))), et)
+					visit(el, depth+1)
+				}
+			}
+		case isIfaceT(v.T):
+			if it, ok := v.T.Underlying().(*types.Interface); ok && it.NumMethods() > 0 {
+				return // an object with behaviour (the caller's writer), not a boxed value
+			}
+			// boxed values: look inside for every candidate dynamic type that carries bytes
+			for id, t := range vc.w.typeByID {
+				if isStringT(t) || isSliceT(t) && typeStr(elemOf(t)) == "uint8" {
+					inner := fr.load(v.L[1], t)
+					save := fr.reach
+					fr.reach = and(fr.reach, eq(v.L[0], intLit(int64(id))))
+					visit(inner, depth+1)
+					fr.reach = save
+				} else if at, ok := t.Underlying().(*types.Array); ok && isStringT(at.Elem()) {
+					inner := fr.load(v.L[1], t)
+					save := fr.reach
+					fr.reach = and(fr.reach, eq(v.L[0], intLit(int64(id))))
+					for j := 0; j < int(at.Len()); j++ {
+						visit(&Val{T: at.Elem(), L: inner.L[2*j : 2*j+2]}, depth+1)
+					}
+					fr.reach = save
+				}
+			}
+		}
+	}
+	for _, a := range args {
+		visit(a, 0)
 	}
 }
 
